@@ -306,7 +306,18 @@ func scanSanitizers(co *childOut) (reps []sanReport, harnessOnly []string) {
 			if m := reFrame.FindStringSubmatch(s); m != nil {
 				where = strings.TrimPrefix(m[1], "github.com/database64128/shadowsocks-go/")
 			}
-			reps = append(reps, sanReport{kind: kind, where: where, text: tail(s, 6000)})
+			// the witness starts at the runtime's message, not at the end of the goroutine dump
+			at := len(s)
+			for _, mark := range []string{"unexpected fault address", "fatal error:", "panic:"} {
+				if i := strings.Index(s, mark); i >= 0 && i < at {
+					at = i
+				}
+			}
+			txt := s[at:]
+			if len(txt) > 6000 {
+				txt = txt[:6000]
+			}
+			reps = append(reps, sanReport{kind: kind, where: where, text: txt + "\n...\n" + tail(s, 1500)})
 		}
 	}
 	return
